@@ -9,6 +9,9 @@ CHECKS = {
     "C15": [("R-GLOBAL", "r_global", "run_global", ("quick", "thorough"))],
     "C04": [("R-ALLOC.who", "r_global", "run_alloc_who", ("quick", "thorough")),
             ("R-TMP", "r_tmp", "run", ("quick", "thorough"))],
+    "C14": [("R-PURE", "r_assert", "run_pure", ("quick", "thorough")),
+            ("R-CONSTASSERT", "r_assert", "run_constassert", ("quick", "thorough")),
+            ("R-TMP.modes", "r_tmp", "run_modes", ("quick", "thorough"))],
 }
 
 # rule id -> (module, function) used by the mutation self-tests
@@ -16,6 +19,9 @@ RULES = {
     "R-GLOBAL": ("r_global", "run_global"),
     "R-ALLOC.who": ("r_global", "run_alloc_who"),
     "R-TMP": ("r_tmp", "run"),
+    "R-PURE": ("r_assert", "run_pure"),
+    "R-CONSTASSERT": ("r_assert", "run_constassert"),
+    "R-TMP.modes": ("r_tmp", "run_modes"),
 }
 
 EXPLANATION = {
@@ -24,6 +30,10 @@ EXPLANATION = {
            "ones must be exactly the documented set and exported functions reaching their writers must be the "
            "documented non-reentrant ones; every external callee is compared with POSIX's not-thread-safe list. "
            "Decides the structural clause 'no undocumented shared mutable location'; it does not enumerate schedules.",
+    "C14": "Static analysis of the build-option dimension: code that exists only under --enable-assert has no effect on state "
+           "(R-PURE), every compile-time-constant assertion holds under each shipped tuning table (R-CONSTASSERT), and no "
+           "TMP block is used after TMP_FREE or escapes (the alloca / malloc-reentrant / debug temporaries cannot differ). "
+           "Kernel ABI and dispatch-contract rules are added as they are built.  Functional equivalence of kernels is not decided.",
     "C04": "Static analysis of the allocator and temporary-memory discipline on every path of every function.",
 }
 
@@ -35,6 +45,11 @@ ASSUMPTIONS = {
     "R-TMP": ["evaluated in the malloc-reentrant + assert model of the current config.h; the alloca and debug modes impose a subset of its obligations",
               "noreturn callees (__gmp_assert_fail, __gmp_divide_by_zero, abort) are not exits",
               "taint is may-information joined at merges; ASSERT (p == <non-TMP expr>) clears p (the repository's stated invariant)"],
+    "R-PURE": ["vanishing code = every CFG element whose macro-expansion stack contains ASSERT, ASSERT_LIMB, ASSERT_MPN*, ASSERT_MPQ_CANONICAL or ASSERT_CODE",
+               "callee purity from LLVM function-attrs on the -DWANT_ASSERT=1 IR; reviewed callees in spec/assert_callees.tsv",
+               "input-only (const-pointer) parameters are not read for their _mp_alloc field (fake mpz_t idiom)"],
+    "R-CONSTASSERT": ["Clang's constant evaluator (Expr::EvaluateAsInt); blocks the CFG prunes as unreachable are skipped; literal ASSERT (0) markers are skipped"],
+    "R-TMP.modes": ["same analysis as R-TMP restricted to the violation kinds whose behaviour differs between alloca, malloc-reentrant and debug temporaries"],
     "R-ALLOC.who": ["direct calls and address-taking in the linked IR are all the ways to reach the C allocator"],
 }
 
@@ -101,7 +116,7 @@ def selftest(which=None, props=None):
             continue
         mod, fn = RULES[m["rule"]]
         f = getattr(importlib.import_module(mod), fn)
-        st, detail = mutants.run_mutant(m, lambda: f(prop=m["prop"], tier="quick"))
+        st, detail = mutants.run_mutant(m, lambda: f(prop=m["prop"], tier=m.get("tier", "quick")))
         results.append(dict(id=m["id"], rule=m["rule"], property=m["prop"], status=st, detail=detail))
         print("mutant %-28s %-12s %-8s %s" % (m["id"], m["rule"], st, detail[:140]))
     missed = [r for r in results if r["status"] in ("missed", "broken")]
